@@ -39,7 +39,7 @@ RULE = (
     'case = (seeded concave problem: logit with linear-in-parameter utilities or normal regression with fixed scale, '
     'N 50-500, K 1-5, random names, weights/availabilities/fixed parameters) x bound configuration '
     '(none, inactive, active, onesided_inactive, onesided_active, multi_active; placed relative to the oracle\'s '
-    'unconstrained optimum) x start (default/random/at_bound/at_optimum) x option draw (threads, radius, dogleg, '
+    'unconstrained optimum; 40% of the eligible bounds sit at exactly 0, int or float) x start (default/random/at_bound/at_optimum) x option draw (threads, radius, dogleg, '
     'second_derivatives, iteration limit, save_iterations); every case runs all 8 table algorithms + automatic through '
     'estimate() and a rotating third through quick_estimate(). A run is non-trivial when the oracle certified a unique '
     'finite maximum (KKT residual <= 1e-10 of the gradient scale, Hessian condition < 1e7) and the estimation returned a '
@@ -293,6 +293,11 @@ def run_case(case):
         rec.c('cases_with_iteration_limit')
     if binding:
         rec.c('cases_with_binding_bound')
+    zero_bounds = [k for k in free if any(b is not None and b == 0 for b in (ctx['lbd'][k], ctx['ubd'][k]))]
+    if zero_bounds:
+        rec.c('cases_with_a_declared_bound_at_exactly_0')
+    if any(k in binding for k in zero_bounds):
+        rec.c('cases_with_a_binding_bound_at_exactly_0')
     rec.sample({'family': spec['family'], 'N': spec['N'], 'K': K, 'weight': spec['weight'], 'config': case['config'],
                 'params': P, 'options': opts, 'oracle_unconstrained_max': u['ll'], 'oracle_constrained_max': c['ll'],
                 'oracle_constrained_argmax': dict(zip(free, c['x'].tolist())), 'binding_bounds': sorted(binding)})
@@ -721,7 +726,7 @@ def finalize(cov, tier):
         if a in BOUND_CAPABLE and cov.get('estimate_on_binding_bound_' + a, 0) == 0:
             out.append(f'no estimate on a binding bound observed for {a}')
     for k in ('function_object_probed', 'agreement_groups_compared', 'hook_calls_seen', 'runs_with_fixed_parameters',
-              'weights_on', 'cases_with_iteration_limit'):
+              'weights_on', 'cases_with_iteration_limit', 'cases_with_a_binding_bound_at_exactly_0'):
         if cov.get(k, 0) == 0:
             out.append(f'monitor / situation never observed: {k}')
     runs = cov.get('runs_estimate', 0) + cov.get('runs_quick_estimate', 0)
